@@ -448,6 +448,12 @@ func reflectSetJustifiedAt(facts []edgeFact, recv, arg ssa.Value) (bool, string)
 		if a != nil && b != nil && ((a == recv && b == arg) || (a == arg && b == recv)) {
 			return true, "behind a test that the value's type is the field's type"
 		}
+		// the same test spelt with reflect.TypeOf(v) / reflect.ValueOf(v)
+		ka, kb := reflectTypeKey(stripValue(bo.X)), reflectTypeKey(stripValue(bo.Y))
+		kr, kv := reflectValueKey(recv), reflectValueKey(arg)
+		if ka != "" && kb != "" && ((ka == kr && kb == kv) || (ka == kv && kb == kr)) {
+			return true, "behind a test that the value's type is the field's type"
+		}
 	}
 	// (ii') reflect.Zero(recv.Type())
 	if zc, _ := callOf(arg); zc != nil {
@@ -611,6 +617,14 @@ func checkTypeList(p *Prog, r *Report, chk *ssa.Function) {
 			return
 		}
 		c, _ := callOf(lk.Index)
+		star := false
+		if c != nil && calleeIs(c, "strings", "TrimPrefix") && len(c.Common().Args) == 2 {
+			// one leading asterisk stripped: T and *T are looked up as T
+			if pre, ok := constString(c.Common().Args[1]); ok && pre == "*" {
+				star = true
+				c, _ = callOf(c.Common().Args[0])
+			}
+		}
 		if c == nil || !c.Common().IsInvoke() || c.Common().Method.Name() != "String" {
 			return
 		}
@@ -619,6 +633,9 @@ func checkTypeList(p *Prog, r *Report, chk *ssa.Function) {
 				if set, ok := constStringSet(p, gl); ok {
 					for k := range set {
 						got[k] = true
+						if star && !strings.HasPrefix(k, "*") {
+							got["*"+k] = true
+						}
 					}
 				}
 			}
@@ -1404,7 +1421,7 @@ func checkNotFoundPanics(p *Prog, r *Report, prefix string) {
 					}
 				}
 				if (bo.Op == token.NEQ && ef.Truth) || (bo.Op == token.EQL && !ef.Truth) {
-					if reflectTypeOf(stripValue(bo.X)) != nil && reflectTypeOf(stripValue(bo.Y)) != nil {
+					if reflectTypeKey(stripValue(bo.X)) != "" && reflectTypeKey(stripValue(bo.Y)) != "" {
 						why = "the value's type differs from the field's"
 					}
 				}
@@ -1481,4 +1498,31 @@ func sameTagRead(a, b ssa.Value) bool {
 		return false
 	}
 	return pathOf(ca.Common().Args[0], 0) == pathOf(cb.Common().Args[0], 0)
+}
+
+// reflectValueKey names the type a reflect.Value expression carries:
+// reflect.ValueOf(y) carries the dynamic type of y, anything else its own.
+func reflectValueKey(v ssa.Value) string {
+	if c, _ := callOf(v); c != nil {
+		if g := c.Common().StaticCallee(); g != nil && fullName(g) == "reflect.ValueOf" && len(c.Common().Args) == 1 {
+			return fmt.Sprintf("dyn:%p", c.Common().Args[0])
+		}
+	}
+	return fmt.Sprintf("val:%p", v)
+}
+
+// reflectTypeKey: v is X.Type() or reflect.TypeOf(y); the key of the type it
+// denotes ("" when v is neither).
+func reflectTypeKey(v ssa.Value) string {
+	c, _ := callOf(v)
+	if c == nil || c.Common().StaticCallee() == nil {
+		return ""
+	}
+	switch fullName(c.Common().StaticCallee()) {
+	case "reflect.(Value).Type":
+		return reflectValueKey(c.Common().Args[0])
+	case "reflect.TypeOf":
+		return fmt.Sprintf("dyn:%p", c.Common().Args[0])
+	}
+	return ""
 }
